@@ -361,6 +361,10 @@ class Ctx:
                 if key not in self.known_hits:
                     self.known_hits[key] = k.get("what", what)
                 return
+        # at most 3 replay files per key (a mass mismatch must not flood replay/)
+        if sum(1 for v in self.violations if v["key"] == key) >= 3:
+            self.violations.append({"key": key, "what": what, "replay": next(v["replay"] for v in self.violations if v["key"] == key)})
+            return
         h = hashlib.sha1((key + json.dumps(replay_obj, sort_keys=True, default=str)).encode()).hexdigest()[:10]
         path = os.path.join(REPLAY, "%s-%s.json" % (self.pid, h))
         with open(path, "w") as f:
